@@ -217,6 +217,30 @@ def handleSplit (fields : List String) : String :=
     | _, _ => "BADREQ split"
   | _ => "BADREQ fields"
 
+/-- `RUNMODE <json|logfmt|format> <hex format|-> <query tokens> <input hex> [dates]`: the complete
+stdout of a run in an output mode (C18) -/
+def handleRunMode (fields : List String) : String :=
+  match fields with
+  | mode :: fhex :: qtoks :: inputHex :: rest =>
+    let dates := match rest with
+      | d :: _ => parseDates d
+      | [] => []
+    let fmt := if fhex == "-" then some "" else stringOfHex fhex.toList
+    match fmt, pQuery (toks qtoks) with
+    | some fmt, some (q, []) =>
+      match compile q with
+      | .error k => "CERR " ++ k
+      | .panic p => "CPANIC " ++ p
+      | .unmodelled w => "SKIP " ++ w
+      | .ok plan =>
+        let bytes := (bytesOfHex inputHex.toList).toList.map UInt8.toNat
+        match runPlan (mkExt dates) plan (Utf8.lines bytes) with
+        | .ok out => "OUT " ++ Ag.OutProto.outputText mode fmt out
+        | .panic p => "PANIC " ++ p
+        | .unmodelled w => "SKIP " ++ w
+    | _, _ => "BADREQ query"
+  | _ => "BADREQ fields"
+
 def handle (line : String) : String :=
   match line.splitOn "\t" with
   | "KW" :: rest => handleKw rest
@@ -231,6 +255,13 @@ def handle (line : String) : String :=
     (match stringOfHex hexquery.toList with
      | some s => Ag.Lang.answer (Ag.Lang.parseQuery s)
      | none => "BADREQ utf8")
+  | "JSONPARSE" :: hex :: _ => Ag.OutProto.handleJsonParse hex
+  | "LOGFMT" :: hex :: _ => Ag.OutProto.handleLogfmt hex
+  | "FMT" :: rest => Ag.OutProto.handleFmt rest
+  | "RENDER" :: v :: _ => Ag.OutProto.handleRender v
+  | "CLI" :: rest => Ag.OutProto.handleCli rest
+  | "PRINT" :: rest => Ag.OutProto.handlePrint rest
+  | "RUNMODE" :: rest => handleRunMode rest
   | "PING" :: _ => "PONG"
   | _ => "BADREQ cmd"
 
